@@ -1,0 +1,60 @@
+//go:build verif
+
+package builtInFunctions
+
+import (
+	"reflect"
+
+	vmcommon "github.com/ElrondNetwork/elrond-vm-common"
+)
+
+// VerifByteField describes one []byte field of a built-in function object (or one of the
+// package-level key prefixes): its length, its capacity and the content of the WHOLE backing
+// array up to the capacity. Verification hook, compiled only with -tags verif; read-only.
+type VerifByteField struct {
+	Owner   string
+	Field   string
+	Len     int
+	Cap     int
+	Backing []byte
+}
+
+func verifSnapshot(owner, field string, b []byte) VerifByteField {
+	full := b[:cap(b)]
+	cp := make([]byte, len(full))
+	copy(cp, full)
+	return VerifByteField{Owner: owner, Field: field, Len: len(b), Cap: cap(b), Backing: cp}
+}
+
+// VerifKeyPrefixes reports every []byte field of every function object in the container, and the
+// package-level nonce and role key prefixes.
+func VerifKeyPrefixes(container vmcommon.BuiltInFunctionContainer) []VerifByteField {
+	out := []VerifByteField{
+		verifSnapshot("package", "noncePrefix", noncePrefix),
+		verifSnapshot("package", "roleKeyPrefix", roleKeyPrefix),
+	}
+	for name := range container.Keys() {
+		fn, err := container.Get(name)
+		if err != nil {
+			continue
+		}
+		v := reflect.ValueOf(fn)
+		for v.Kind() == reflect.Ptr || v.Kind() == reflect.Interface {
+			if v.IsNil() {
+				break
+			}
+			v = v.Elem()
+		}
+		if v.Kind() != reflect.Struct {
+			continue
+		}
+		t := v.Type()
+		for i := 0; i < v.NumField(); i++ {
+			f := v.Field(i)
+			if f.Kind() == reflect.Slice && f.Type().Elem().Kind() == reflect.Uint8 && !f.IsNil() {
+				out = append(out, verifSnapshot(name, t.Field(i).Name, f.Bytes()))
+			}
+		}
+	}
+	return out
+}
